@@ -517,4 +517,65 @@ example :
       .setOrder [1, 0], .prune (some 1)]
     (run {} ops).isSome = true ∧ (run {} ops).map view = some [(2, 0, [none])] := by decide
 
+/-! ## replace: referent tracking -/
+
+theorem deref_set (bs : List Blk) (i : Nat) (hi : i < bs.length) (b : Blk) (hn : (bs.map (·.uid)).Nodup) (r : Option Nat) :
+    deref (bs.set i b) r = if deref bs r = some bs[i].uid then some b.uid else deref bs r := by
+  cases r with
+  | none => simp [deref]
+  | some k =>
+    have hL : deref (bs.set i b) (some k) = ((bs.set i b)[k]?).map (·.uid) := rfl
+    have hR : deref bs (some k) = (bs[k]?).map (·.uid) := rfl
+    by_cases hk : k = i
+    · subst hk
+      have hv : deref bs (some k) = some bs[k].uid := by rw [hR, List.getElem?_eq_getElem hi]; rfl
+      rw [if_pos hv, hL, List.getElem?_set_self hi]; rfl
+    · rw [hL, List.getElem?_set_ne (Ne.symm hk), ← hR, if_neg]
+      intro e
+      rw [hR] at e
+      rcases Nat.lt_or_ge k bs.length with hklt | hkge
+      · rw [List.getElem?_eq_getElem hklt] at e
+        simp only [Option.map_some, Option.some.injEq] at e
+        have h1 : (bs.map (·.uid))[k]'(by simpa using hklt) = (bs.map (·.uid))[i]'(by simpa using hi) := by
+          simp [e]
+        exact hk ((List.getElem_inj hn).mp h1)
+      · rw [List.getElem?_eq_none hkge] at e
+        cases e
+
+/-- **Referent tracking for a replacement.** The new block takes the slot; every other block keeps identity and
+type, and each of its references designates the same logical block as before — except that references to the
+replaced block now designate its replacement. -/
+theorem view_replace (h h' : Hdr) (i : Nat) (b : Blk) (hinv : Inv h) (hi : i < h.blocks.length)
+    (hd : h.replace i b = some h') :
+    view h' = ((view h).map fun (u, t, rs) =>
+        (u, t, rs.map fun r => if r = some h.blocks[i].uid then some b.uid else r)).set i
+      (b.uid, b.ty, b.refs.map (deref (h.blocks.set i b))) := by
+  have hlen := hinv.len_tidx
+  unfold Hdr.replace at hd
+  have hc : ¬ (i ≥ h.blocks.length ∨ i ≥ h.tidx.length) := by omega
+  simp only [hc, if_false] at hd
+  have hb' : h'.blocks = h.blocks.set i b := by
+    generalize dropType h.types h.tidx (h.tidx.getD i 0) = dt at hd
+    obtain ⟨t1, x1⟩ := dt
+    simp only at hd
+    generalize addOrFindType t1 b.ty = at2 at hd
+    obtain ⟨t2, id⟩ := at2
+    simp only [Option.some.injEq] at hd
+    rw [← hd]
+  unfold view
+  rw [hb']
+  apply List.ext_getElem
+  · simp
+  · intro k h1 h2
+    simp only [List.getElem_map, List.getElem_set]
+    by_cases hk : i = k
+    · subst hk
+      simp
+    · simp only [hk, if_false]
+      refine Prod.ext rfl (Prod.ext rfl ?_)
+      simp only [List.map_map]
+      apply List.map_congr_left
+      intro r _
+      exact deref_set h.blocks i hi b hinv.uids_nodup r
+
 end Nifly.Graph
